@@ -23,11 +23,13 @@ What is proved:
 What is NOT proved (and why the names below carry no claim about it): that on an acyclic inequality
 system `satisfy` never throws (the VPSC paper's merge invariant — it needs the argument that blocks to the
 left only ever move left, through the lazily repaired heaps); here that is observed, case by case, by the
-correspondence with the real solver plus the proven post-condition checker.  The model checks three facts
-of the heap discipline dynamically instead of proving them (flag `HS.corrupt`: a heap hands back a
-constraint that is internal or does not enter the block; `findMinLM` returns a constraint of another
-block); a run that sets the flag, like a run that exhausts fuel, is not a normal return and is reported by
-the driver.
+correspondence with the real solver plus the proven post-condition checker.  The model checks ONE fact of
+the heap discipline dynamically instead of proving it (flag `HS.corrupt`: the in-heap of block r hands back a
+constraint whose right end is not in r, resp. the out-heap one whose left end is not in l); a run that sets
+the flag, like a run that exhausts fuel, is not a normal return and is reported by the driver.  That the
+constraint handed back joins two DIFFERENT blocks (`findMinIn_ext`, `findMinOut_ext`: the lazy repair of
+`findMinInConstraint` never leaves an internal constraint at the root) and that `findMinLM` returns a
+constraint of its own block (`findMinLM_blk`) are proved.
 -/
 import AdaptaVerif.Lemmas.VpscStatic
 import AdaptaVerif.Lemmas.VpscKktOpt
